@@ -2021,6 +2021,28 @@ def _re_sub_const(kind: str):
                 st.note(f"re.{kind}: invalid pattern / replacement")
                 return [(Unknown(kind), st)]
             return [(r, st)]
+        if 3 <= len(args) <= 4 and isinstance(args[0], str) and isinstance(args[2], str) and all(isinstance(a, int) for a in args[3:]) and not kwargs \
+                and isinstance(args[1], (FuncV, LambdaV, BoundV)):
+            # a replacement FUNCTION, interpreted once per (library-computed) match of the constant pattern in the constant text
+            class _Abstract(Exception):
+                pass
+
+            def repl(m):
+                mo = Opaque("re.Match", repr(("at", args[0], args[2], m.start())))
+                r = I.call(args[1], [mo], {}, st, node)
+                if len(r) != 1 or not isinstance(r[0][0], str) or r[0][1] is not st:
+                    raise _Abstract()
+                return r[0][0]
+
+            try:
+                out = getattr(_re, kind)(args[0], repl, args[2], *args[3:])
+            except _Abstract:
+                st.note(f"re.{kind}: the replacement function does not evaluate to one constant string per match")
+                return [(Unknown(kind), st)]
+            except _re.error:
+                st.note(f"re.{kind}: invalid pattern")
+                return [(Unknown(kind), st)]
+            return [(out, st)]
         return None
 
     return f
@@ -2055,7 +2077,7 @@ def re_match_method(I, recv, name, args, kwargs, st):
     import re as _re
 
     spec = eval(recv.tag, {"__builtins__": {}})  # the repr written by _re_const: a tuple of str / int constants
-    m = getattr(_re, spec[0])(*spec[1:])
+    m = _re.compile(spec[1]).match(spec[2], spec[3]) if spec[0] == "at" else getattr(_re, spec[0])(*spec[1:])
     if m is None or kwargs or not all(isinstance(a, (int, str)) for a in args):
         return None
     if name in ("group", "groups", "start", "end", "span"):
